@@ -453,7 +453,8 @@ fn families(l: &Lang, thorough: bool) -> Acc {
         }
     }
     // integers and numbers
-    let mut ints: Vec<String> = ["0", "-0", "00", "01", "-1", "-01", "1", "10", "1.", ".5", "1.0", "1e2", "1E2", "1E+2", "1e-2", "1.5e-2", "1e", "1e+", "+1", "--1", "- 1", "1 0", "0x10", "1_0", "١"]
+    let mut ints: Vec<String> = ["0", "-0", "00", "01", "-1", "-01", "1", "10", "1.", ".5", "1.0", "1e2", "1E2", "1E+2", "1e-2", "1.5e-2", "1e", "1e+", "+1", "--1", "- 1", "1 0", "0x10", "1_0", "١", "1e400", "1E309", "-1.5e+309", "1e308", "1.7976931348623157e308", "1e-400", "0e400", "-0e400", "0.1e400",
+        "123456789012345678901234567890.5", "1.0000000000000000000000000000001", "1e00", "1e+00", "1e-0", "0.0", "-0.0", "0e0"]
         .into_iter()
         .map(String::from)
         .collect();
